@@ -396,7 +396,7 @@ def first_match_rule(ctx, chk, rule):
                        "`%s` changes the process-wide ordered table in place: which entry a later string matches first (numeric offsets "
                        "before abbreviations) then depends on the calls made before" % " ".join(ast.unparse(tgt).split())[:70],
                        key={"function": f.key, "construct": "table mutated " + " ".join(ast.unparse(tgt).split())[:40]},
-                       file=f.file, function=f.qual, line=tgt.lineno, text=" ".join(ast.unparse(tgt).split())[:100])
+                       file=f.file, function=f.qual, line=tgt.lineno, text=" ".join(ast.unparse(tgt).split())[:100], positive=True)
         for lp in [x for x in iter_own_nodes(f.node) if isinstance(x, ast.For) and any(
                 isinstance(y, (ast.Name, ast.Attribute)) and ast.unparse(y).split(".")[-1] == "_tz_offsets" for y in ast.walk(x.iter))]:
             it = lp.iter
